@@ -125,8 +125,13 @@ fn search(args: &HiArgs, mode: SearchMode) -> anyhow::Result<bool> {
         searched = true;
         let search_result = match searcher.search(&haystack) {
             Ok(search_result) => search_result,
-            // A broken pipe means graceful termination.
-            Err(err) if err.kind() == std::io::ErrorKind::BrokenPipe => break,
+            // A broken pipe means graceful termination. We bubble the error
+            // up so that the exit status is the one of a graceful termination
+            // (and not "no match", which is what we'd report if the pipe was
+            // closed before the first match was recorded).
+            Err(err) if err.kind() == std::io::ErrorKind::BrokenPipe => {
+                return Err(err.into());
+            }
             Err(err) => {
                 err_message!("{}: {}", haystack.path().display(), err);
                 continue;
